@@ -23,6 +23,7 @@ import (
 	"sort"
 	"strings"
 	"sync"
+	"sync/atomic"
 	"time"
 
 	"github.com/go-kid/ioc/app"
@@ -401,6 +402,11 @@ func runRaceScenario(c RaceCase) (out RaceOut) {
 	return
 }
 
+// raceHangs counts the race scenarios that hung so far.  The first hangs get the full watchdog; once two scenarios
+// have hung the verdict of the run no longer depends on the others, and they get a shorter one (a start that hangs
+// for every pair of failing scanners would otherwise cost a minute per scenario).
+var raceHangs int32
+
 func runRaceChild(self string, c RaceCase) (out RaceOut) {
 	out = RaceOut{ID: c.ID}
 	data, _ := json.Marshal(c)
@@ -415,12 +421,19 @@ func runRaceChild(self string, c RaceCase) (out RaceOut) {
 		return
 	}
 	go func() { done <- cmd.Wait() }()
+	watchdog := 60 * time.Second
+	if atomic.LoadInt32(&raceHangs) >= 2 {
+		watchdog = 15 * time.Second
+	}
 	var err error
 	select {
 	case err = <-done:
-	case <-time.After(60 * time.Second):
+	case <-time.After(watchdog):
 		cmd.Process.Kill()
+		<-done
+		atomic.AddInt32(&raceHangs, 1)
 		out.Outcome = "hang"
+		out.Report = fmt.Sprintf("start + shutdown did not finish within %v", watchdog)
 		return
 	}
 	s := buf.String()
